@@ -55,6 +55,7 @@ func init() {
 type prng struct {
 	s    uint64
 	dict []string
+	keys []string // the harvested strings that were map keys: generated string map keys mostly come from here
 }
 
 func (p *prng) n(k int) int {
@@ -81,6 +82,9 @@ func fillMessage(m protoreflect.Message, p *prng, depth int) {
 			mp := m.Mutable(fd).Map()
 			for k := p.n(3); k > 0; k-- {
 				key := scalarValue(fd.MapKey(), p).MapKey()
+				if fd.MapKey().Kind() == protoreflect.StringKind && len(p.keys) > 0 && p.n(4) != 0 {
+					key = protoreflect.ValueOfString(p.keys[p.n(len(p.keys))]).MapKey()
+				}
 				if fd.MapValue().Kind() == protoreflect.MessageKind {
 					if depth <= 0 {
 						continue
@@ -148,9 +152,19 @@ func scalarValue(fd protoreflect.FieldDescriptor, p *prng) protoreflect.Value {
 }
 
 // harvestStrings collects the strings (and string map keys) a message uses, for the generator's dictionary.
-func harvestStrings(m protoreflect.Message, out *[]string, depth int) {
+func harvestStrings(m protoreflect.Message, out *[]string, keys *[]string, depth int) {
 	if !m.IsValid() || depth < 0 || len(*out) > 40 {
 		return
+	}
+	addKey := func(s string) {
+		for _, x := range *keys {
+			if x == s {
+				return
+			}
+		}
+		if s != "" && len(*keys) < 20 {
+			*keys = append(*keys, s)
+		}
 	}
 	add := func(s string) {
 		if s == "" || len(s) > 40 {
@@ -169,11 +183,12 @@ func harvestStrings(m protoreflect.Message, out *[]string, depth int) {
 			v.Map().Range(func(k protoreflect.MapKey, mv protoreflect.Value) bool {
 				if fd.MapKey().Kind() == protoreflect.StringKind {
 					add(k.String())
+					addKey(k.String())
 				}
 				if fd.MapValue().Kind() == protoreflect.StringKind {
 					add(mv.String())
 				} else if fd.MapValue().Kind() == protoreflect.MessageKind {
-					harvestStrings(mv.Message(), out, depth-1)
+					harvestStrings(mv.Message(), out, keys, depth-1)
 				}
 				return true
 			})
@@ -183,13 +198,13 @@ func harvestStrings(m protoreflect.Message, out *[]string, depth int) {
 				if fd.Kind() == protoreflect.StringKind {
 					add(l.Get(i).String())
 				} else if fd.Kind() == protoreflect.MessageKind {
-					harvestStrings(l.Get(i).Message(), out, depth-1)
+					harvestStrings(l.Get(i).Message(), out, keys, depth-1)
 				}
 			}
 		case fd.Kind() == protoreflect.StringKind:
 			add(v.String())
 		case fd.Kind() == protoreflect.MessageKind:
-			harvestStrings(v.Message(), out, depth-1)
+			harvestStrings(v.Message(), out, keys, depth-1)
 		}
 		return true
 	})
